@@ -1,5 +1,5 @@
 """C01: the optimizer never changes what a script does (tla/UgoSem.tla, UgoSemFam.tla families shadow / fold / cond)."""
-import json
+import json, re
 from checks import semcommon
 from lib import vlib
 
@@ -22,14 +22,17 @@ def run(ctx):
     n = 0
     # what a constant expression itself does, outside the reference fragment: the optimizer-off run of the script that returns it
     own = {}
+    def ekey(r):
+        i = r["id"]
+        return (i.get("k", "bin"), i.get("op"), i.get("a"), i.get("b"), i.get("d"))
     for r in vlib.read_ndjson(res):
-        if r["fam"] == "fold" and r["id"]["pos"] == "ret":
-            own[(r["id"]["op"], r["id"]["a"], r["id"]["b"])] = r["got"]["noopt"]
+        if r["fam"] in ("fold", "xfold") and r["id"]["pos"] == "ret":
+            own[ekey(r)] = r["got"]["noopt"]
     for r in vlib.read_ndjson(res):
         n += 1
         ctx.evaluations += len(r["got"])
         key = vlib.sha(r["src"])
-        if r["fam"] == "shadow" or (r["fam"] == "fold" and r["id"]["pos"] != "var"):
+        if r["fam"] == "shadow" or (r["fam"] in ("fold", "xfold") and r["id"]["pos"] != "var"):
             ctx.nontrivial.add(key)
         ctx.traces_validated += 1
         if n % 400 == 1:
@@ -51,8 +54,12 @@ def run(ctx):
                 # refusal with the constant sub-expression's own error; outside the reference fragment
                 # the error must be the one the optimizer-off run raises
                 names = ("ZeroDivisionError", "TypeError")
-                expr = own.get((r["id"].get("op"), r["id"].get("a"), r["id"].get("b")), "") if r["fam"] == "fold" else ""
+                expr = own.get(ekey(r), "") if r["fam"] in ("fold", "xfold") else ""
                 if any(nm in v and (r.get("refknown", True) or nm in expr) for nm in names):
+                    continue
+                # any other error: the name the refusal reports is the name the expression raises when it is evaluated
+                m = re.match(r"COMPILE: Optimizer Error: (\w+)", v)
+                if m and not r.get("refknown", True) and ('"thr"' in expr and m.group(1) in expr):
                     continue
             bad[k] = v
         if bad:
